@@ -1,5 +1,150 @@
+/-
+Driver ops for C17: the definitions of `GT.Model.Lie` executed over ℚ (`"field":"Q"`) and over
+ℚ(i) (`"field":"QI"`, numbers as `[re, im]`; the ring-generic maps run at `GT.QI`, the maps
+that split real and imaginary parts at `Cx ℚ`).
+-/
 import GT.Base.JsonQ
-open Lean GT.J
+import GT.Base.QSqrt
+import GT.Model.Lie
+import GT.Driver.C16
+import GT.Driver.C04
+import GT.Model.LieND
+import Mathlib.Algebra.Order.Field.Rat
+import Mathlib.Algebra.Order.Ring.Abs
+open Lean GT.J GT GT.Lie
 namespace GT.Driver.C17
-def ops : List (String × Handler) := []
+open GT.Driver.C16 (JField kArr kArr2 vecOfArr matOfArr outVec outMat)
+
+instance : JField (Cx ℚ) where
+  parse j := do
+    let a ← arr j
+    if a.size ≠ 2 then throw "expected [re, im]"
+    return ⟨← toQ a[0]!, ← toQ a[1]!⟩
+  out z := .arr #[ofQ z.re, ofQ z.im]
+
+section generic
+variable {K : Type} [JField K] [Inhabited K] [CommRing K]
+
+/-- `sl2_irrep(A, n)` -/
+def irrepOp (j : Json) : R Json := do
+  let n ← natf j "n"
+  let A : Matrix (Fin 2) (Fin 2) K ← matOfArr 2 2 (← kArr2 (← field j "A"))
+  return outMat (sl2Irrep n A)
+
+/-- flatten a matrix indexed by pairs (row-major `k*n+l`) -/
+def outPairMat {n : ℕ} (M : Matrix (Fin n × Fin n) (Fin n × Fin n) K) : Json :=
+  outMat (fun (a b : Fin (n * n)) => M (finProdFinEquiv.symm a) (finProdFinEquiv.symm b))
+
+/-- all pairs but the last diagonal one, in row-major order -/
+def slIdxList (n : ℕ) : List (SlIdx n) :=
+  (List.finRange (n + 1)).flatMap fun i => (List.finRange (n + 1)).filterMap fun j =>
+    if h : (i, j) ≠ (Fin.last n, Fin.last n) then some ⟨(i, j), h⟩ else none
+
+def outSlMat {n : ℕ} (M : Matrix (SlIdx n) (SlIdx n) K) : Json :=
+  .arr ((slIdxList n).map fun p => Json.arr ((slIdxList n).map fun q => JField.out (M p q)).toArray).toArray
+
+/-- `gln_adjoint(A, inv=Ai)` -/
+def glnAdjOp (j : Json) : R Json := do
+  let n ← natf j "n"
+  let A : Matrix (Fin n) (Fin n) K ← matOfArr n n (← kArr2 (← field j "A"))
+  let Ai : Matrix (Fin n) (Fin n) K ← matOfArr n n (← kArr2 (← field j "Ai"))
+  return outPairMat (glnAdjoint A Ai)
+
+/-- `sln_adjoint(A, inv=Ai)` -/
+def slnAdjOp (j : Json) : R Json := do
+  let n ← natf j "n"
+  match n with
+  | 0 => throw "n ≥ 1 expected"
+  | m + 1 =>
+    let A : Matrix (Fin (m + 1)) (Fin (m + 1)) K ← matOfArr (m + 1) (m + 1) (← kArr2 (← field j "A"))
+    let Ai : Matrix (Fin (m + 1)) (Fin (m + 1)) K ← matOfArr (m + 1) (m + 1) (← kArr2 (← field j "Ai"))
+    return outSlMat (slnAdjoint A Ai)
+
+/-- `sln_killing_form(n)` -/
+def killingOp (j : Json) : R Json := do
+  let n ← natf j "n"
+  match n with
+  | 0 => throw "n ≥ 1 expected"
+  | m + 1 => return outSlMat (slnKilling (R := K) (n := m))
+
+/-- `block_include(A, dim)` -/
+def blockOp (j : Json) : R Json := do
+  let n ← natf j "n"
+  let dim ← natf j "dim"
+  if dim < n then throw "ValueError"
+  let A : Matrix (Fin n) (Fin n) K ← matOfArr n n (← kArr2 (← field j "A"))
+  let B := blockInclude (k := dim - n) A
+  let idx : List (Fin n ⊕ Fin (dim - n)) := (List.finRange n).map Sum.inl ++ (List.finRange (dim - n)).map Sum.inr
+  return .arr (idx.map fun p => Json.arr (idx.map fun q => JField.out (B p q)).toArray).toArray
+
+end generic
+
+/-- `slc_to_slr(Z)` -/
+def realifyOp (j : Json) : R Json := do
+  let n ← natf j "n"
+  let Z : Matrix (Fin n) (Fin n) (Cx ℚ) ← matOfArr n n (← kArr2 (← field j "Z"))
+  let B := realifyCx Z
+  let idx : List (Fin n ⊕ Fin n) := (List.finRange n).map Sum.inl ++ (List.finRange n).map Sum.inr
+  return .arr (idx.map fun p => Json.arr (idx.map fun q => ofQ (B p q)).toArray).toArray
+
+/-- `sl2_to_so21(A)` -/
+def so21Op (j : Json) : R Json := do
+  let A ← matf 2 2 j "A"
+  return ofMat (sl2ToSo21 A)
+
+/-- `sl2c_to_so31` with the Hermitian action materialised once (pure re-association of the
+evaluation; `so31Fast_eq` shows it is the model function) -/
+def so31Fast (M : Matrix (Fin 2) (Fin 2) (Cx ℚ)) : Matrix (Fin 4) (Fin 4) ℚ :=
+  so31BasisInv * (DMat.ofMatrix (sl2cHermAction M)).toMatrix * so31Basis
+
+theorem so31Fast_eq (M : Matrix (Fin 2) (Fin 2) (Cx ℚ)) : so31Fast M = sl2cToSo31 M := by
+  simp [so31Fast, sl2cToSo31]
+
+/-- `sl2c_to_so31(M)`; also reports the largest imaginary part that `utils.real` drops -/
+def so31Op (j : Json) : R Json := do
+  let M : Matrix (Fin 2) (Fin 2) (Cx ℚ) ← matOfArr 2 2 (← kArr2 (← field j "M"))
+  let Hc := (DMat.ofMatrix (sl2cHermActionCx M)).toMatrix
+  let im := (List.finRange 4).foldl (fun acc i => (List.finRange 4).foldl (fun acc j => max acc |(Hc i j).im|) acc) (0 : ℚ)
+  return Json.mkObj [("S", ofMat (so31Fast M)), ("dropped_imag", ofQ im)]
+
+def needSq (q : ℚ) : R Unit := if isSq q then pure () else throw "irrational-root"
+
+/-- `o_to_pgl(S)` (default form): repaired extraction, and the pinned one for reference -/
+def pglOp (j : Json) : R Json := do
+  let S ← matf 3 3 j "S"
+  let Ad := (DMat.ofMatrix (oToPglAd S)).toMatrix
+  needSq |Ad 0 0|
+  needSq |Ad 0 2|
+  needSq |Ad 2 0|
+  needSq |Ad 2 2|
+  return Json.mkObj [("A", ofMat (oToPgl rsqrt S)), ("pinned", ofMat (oToPglPinned rsqrt S)), ("Ad", ofMat Ad)]
+
+/-- the array-level (`ND`) models of the vectorised code paths: `{"shape":[...], "data":[...]}` in and out -/
+def irrepNdOp (j : Json) : R Json := do
+  let A ← GT.Driver.C04.ndf j "A"
+  return GT.Driver.C04.ofND (GT.Lie.Arr.sl2IrrepND (← natf j "n") A)
+
+def so21NdOp (j : Json) : R Json := do
+  GT.Driver.C04.liftE (GT.Lie.Arr.sl2ToSo21ND (← GT.Driver.C04.ndf j "A"))
+
+def glnNdOp (j : Json) : R Json := do
+  GT.Driver.C04.liftE (GT.Lie.Arr.glnAdjointND (← natf j "n") (← GT.Driver.C04.ndf j "A") (← GT.Driver.C04.ndf j "Ai"))
+
+def byField (hq : Handler) (hqi : Handler) : Handler := fun j => do
+  match (← strf j "field") with
+  | "Q" => hq j
+  | "QI" => hqi j
+  | _ => throw "unknown field"
+
+def ops : List (String × Handler) :=
+  [("c17.irrep", byField (irrepOp (K := ℚ)) (irrepOp (K := QI))),
+   ("c17.gln_adj", byField (glnAdjOp (K := ℚ)) (glnAdjOp (K := QI))),
+   ("c17.sln_adj", byField (slnAdjOp (K := ℚ)) (slnAdjOp (K := QI))),
+   ("c17.killing", killingOp (K := ℚ)),
+   ("c17.block", byField (blockOp (K := ℚ)) (blockOp (K := QI))),
+   ("c17.realify", realifyOp),
+   ("c17.so21", so21Op),
+   ("c17.so31", so31Op),
+   ("c17.o_to_pgl", pglOp),
+   ("c17.irrep_nd", irrepNdOp), ("c17.so21_nd", so21NdOp), ("c17.gln_nd", glnNdOp)]
 end GT.Driver.C17
